@@ -1095,6 +1095,45 @@ def m_flatten(E, st, f, a, k, e):
     E.match_option(st, a[0], lambda s, x: k(s, x), lambda s: k(s, NONE))
 
 
+def _opt_loc(E, st, ref):
+    """location behind a `&mut Option<T>` argument"""
+    if isinstance(ref, tuple) and ref[0] == 'r':
+        return ref[1]
+    return ('d', ref)
+
+
+@model(OPT + 'insert')
+def m_opt_insert(E, st, f, a, k, e):
+    loc = _opt_loc(E, st, a[0])
+    E.write_loc(st, loc, SOME(a[1]), e.get('ln'))
+    k(st, ('r', ('f', ('down', loc, 'Some', 1), 0, 'core::option::Option')))
+
+
+@model(OPT + 'replace')
+def m_opt_replace(E, st, f, a, k, e):
+    loc = _opt_loc(E, st, a[0])
+    old = E.read(st, loc)
+    E.write_loc(st, loc, SOME(a[1]), e.get('ln'))
+    k(st, old)
+
+
+@model(OPT + 'get_or_insert', OPT + 'get_or_insert_with')
+def m_get_or_insert(E, st, f, a, k, e):
+    loc = _opt_loc(E, st, a[0])
+    cur = E.read(st, loc)
+    payload = ('r', ('f', ('down', loc, 'Some', 1), 0, 'core::option::Option'))
+
+    def none(s):
+        def fill(s2, v):
+            E.write_loc(s2, loc, SOME(v), e.get('ln'))
+            k(s2, payload)
+        if f['path'].endswith('get_or_insert_with'):
+            E.call_closure(s, a[1], [], fill)
+        else:
+            fill(s, a[1])
+    E.match_option(st, cur, lambda s, x: k(s, payload), none)
+
+
 @model(OPT + 'take')
 def m_take(E, st, f, a, k, e):
     v = E.deref_arg(st, a[0])
